@@ -120,7 +120,7 @@ theorem matchTuple_replicate {V : Type} (k : Nat) (x : Ident) :
       rw [ih (i + 1) ws v h]
       rw [show i + 1 + n = i + (n + 1) by omega]
 
-theorem arms_get : ∀ (vs : List DerefVariant) (k0 : Nat) (as : List DerefArm), arms k0 vs = .ok as →
+theorem deref_arms_get : ∀ (vs : List DerefVariant) (k0 : Nat) (as : List DerefArm), arms k0 vs = .ok as →
     as.length = vs.length ∧ ∀ (k : Nat) (v : DerefVariant), vs[k]? = some v → ∃ a, arm (k0 + k) v = .ok a ∧ as[k]? = some a := by
   intro vs
   induction vs with
@@ -183,7 +183,7 @@ theorem deref_correct {V : Type} (t : DerefType) (ht : t.WF) (bd : DerefBody) (h
     | error e => simp [has] at hbd
     | ok as =>
       simp only [has] at hbd
-      obtain ⟨hlen, hget⟩ := arms_get vs 0 as has
+      obtain ⟨hlen, hget⟩ := deref_arms_get vs 0 as has
       obtain ⟨arma, harma, hasa⟩ := hget ka va hva
       simp only [Nat.zero_add] at harma
       cases as with
